@@ -20,7 +20,7 @@ PROPERTY = "C15"
 NUM = 15
 RULE = ("cases = histories of 3-12 steps over a pool of settings objects of all eight classes: construct (defaults / explicit "
         "values drawn per attribute type: arrays, lists, tuples, None, numbers, strings, dicts), mutate in place (list element, "
-        "dict entry, array element), assign an attribute, save, load into a fresh object, dispatch-read, process/preprocess "
+        "dict entry, array element), assign an attribute, save, load into a fresh object or into one already holding other explicit values, dispatch-read, process/preprocess "
         "with original and reloaded settings; non-trivial = the history holds an in-place mutation followed by a later "
         "construction, or a save/load of explicit values; distinct = (class sequence, step kinds) signatures")
 ASSUMPTIONS = [
@@ -69,7 +69,14 @@ def gen_value(rng, attr):
         fcs = np.geomspace(float(rng.uniform(0.2, 1)), float(rng.uniform(5, 20)), int(rng.integers(3, 12)))
         return dict(operator=op, bandwidth=gen.bandwidth(rng, op, 50.0), center_frequencies_in_hz=seq(rng, [float(x) for x in fcs]))
     if attr == "fft_settings":
-        return None if rng.random() < 0.5 else dict(n=int(2 ** rng.integers(15, 18)))
+        k = rng.random()
+        if k < 0.4:
+            return None
+        if k < 0.75:
+            return dict(n=int(2 ** rng.integers(15, 18)))
+        if k < 0.88:        # a dict need not name the length: every np.fft.rfft keyword is legal
+            return dict(norm=str(rng.choice(["backward", "ortho", "forward"])))
+        return dict(n=int(2 ** rng.integers(15, 18)), norm=str(rng.choice(["backward", "ortho"])))
     if attr == "handle_dissimilar_time_steps_by":
         return str(rng.choice(["frequency_domain_resampling", "keeping_smallest_time_step", "keeping_majority_time_step"]))
     if attr == "method_to_combine_horizontals":
@@ -256,7 +263,12 @@ def fam_history(ctx, rng):
                 pool[i].save(path_arg)
                 ctx.check(snap.snap(pool[i]) == before, "save-leaves-object-unchanged", "save() changed the settings object", **info)
                 if op == "save-load":
-                    new = getattr(hvsrpy, names[i])()
+                    if rng.random() < 0.5:
+                        new = getattr(hvsrpy, names[i])()
+                        info["load_target"] = "fresh default object"
+                    else:               # re-configuring an object that already holds other explicit values
+                        new, _ = construct(rng, names[i], True)
+                        info["load_target"] = "object holding other explicit values"
                     new.load(path_arg)
                 else:
                     new = hvsrpy.read_settings_object_from_file(path_arg)
